@@ -1449,6 +1449,11 @@ impl fmt::Debug for Reader {
   }
 }
 
+// Verification accessors (read-only views of private state); only with `--cfg rustdds_verif`.
+#[cfg(rustdds_verif)]
+#[path = "/verif/facade/reader_hooks.rs"]
+pub(crate) mod verif_hooks;
+
 #[cfg(test)]
 mod tests {
   use std::sync::RwLock;
